@@ -28,10 +28,16 @@ type hAttDuties struct {
 	fail   bool
 	duties []*apiv1.AttesterDuty
 	asked  []*api.AttesterDutiesOpts
+	// onAsk, when set, runs while the request is in flight (the beacon node takes its time: the chain
+	// moves on meanwhile)
+	onAsk func()
 }
 
 func (h *hAttDuties) AttesterDuties(_ context.Context, opts *api.AttesterDutiesOpts) (*api.Response[[]*apiv1.AttesterDuty], error) {
 	h.asked = append(h.asked, opts)
+	if h.onAsk != nil {
+		h.onAsk()
+	}
 	if h.fail {
 		return nil, errors.New("mock duties failure")
 	}
@@ -41,9 +47,13 @@ func (h *hAttDuties) AttesterDuties(_ context.Context, opts *api.AttesterDutiesO
 type hPropDuties struct {
 	fail   bool
 	duties []*apiv1.ProposerDuty
+	onAsk  func() // as for hAttDuties
 }
 
 func (h *hPropDuties) ProposerDuties(_ context.Context, _ *api.ProposerDutiesOpts) (*api.Response[[]*apiv1.ProposerDuty], error) {
+	if h.onAsk != nil {
+		h.onAsk()
+	}
 	if h.fail {
 		return nil, errors.New("mock duties failure")
 	}
@@ -208,6 +218,16 @@ func c03AttestJobs(e *ctlEnv, m int) {
 			}
 		}
 	}
+	// the duties request may be in flight across a slot boundary: what counts as passed (and as the
+	// current slot) is the chain's time when the jobs are set up, not when the duties were asked for
+	if vnd.Bool("slot-boundary-crossed-while-duties-in-flight") {
+		h.onAsk = func() {
+			if len(h.asked) == 1 {
+				e.ct.Cur++
+			}
+		}
+		vnd.Cover("C03.attest.slot-boundary-during-fetch")
+	}
 	e.s.scheduleAttestations(context.Background(), epoch, []phase0.ValidatorIndex{1, 2, 3}, notCurrent)
 	vnd.Quiesce()
 	e.sched.OnSchedule = nil
@@ -299,6 +319,10 @@ func VerifC03_ProposalJobs() {
 			vnd.Assume(slots[j] != slots[i]) // one proposer per slot
 		}
 		h.duties = append(h.duties, &apiv1.ProposerDuty{Slot: slots[i], ValidatorIndex: vals[i]})
+	}
+	if vnd.Bool("slot-boundary-crossed-while-duties-in-flight") {
+		h.onAsk = func() { e.ct.Cur++ }
+		vnd.Cover("C03.proposal.slot-boundary-during-fetch")
 	}
 	e.s.scheduleProposals(context.Background(), epoch, []phase0.ValidatorIndex{1, 2}, notCurrent)
 	vnd.Quiesce()
